@@ -106,7 +106,7 @@ def r2(ctx):
                    {"path": path_text(o)})
 
 
-def run_forever_paths(ctx, reconnect=0, prior_errored=False, scenario_filter=None):
+def run_forever_paths(ctx, reconnect=0, prior_errored=False, scenario_filter=None, close_in=None, interrupt_in=None):
     """Whole run_forever with the built-in dispatcher; the dispatcher's read loop is a stub that plays one scenario."""
     idx = ctx.index
 
@@ -116,8 +116,11 @@ def run_forever_paths(ctx, reconnect=0, prior_errored=False, scenario_filter=Non
 
     def connect(I, run, args, kwargs, node):
         run.effect("appsock.connect", (), node=node)
-        if run.choose(2, I.locof(node), "connect: ok / refused") == 1:
+        ch = run.choose(3, I.locof(node), "connect: ok / refused / other OSError (timeout, unreachable)")
+        if ch == 1:
             raise_exc(I, run, "builtins.ConnectionRefusedError", node)
+        if ch == 2:
+            raise_exc(I, run, "builtins.TimeoutError", node)
         return NONE
 
     def disp_read(I, run, args, kwargs, node):
@@ -143,7 +146,7 @@ def run_forever_paths(ctx, reconnect=0, prior_errored=False, scenario_filter=Non
         I.call(run, read_cb, [], {}, node)
         return NONE
 
-    st = sock_stubs(frame_source(("TEXT", "CLOSE"), (CLOSED_EXC,)), extra={
+    st = sock_stubs(frame_source(("TEXT", "CLOSE"), (CLOSED_EXC, "builtins.ConnectionResetError")), extra={
         "_core:WebSocket": ws_ctor, "appsock.connect": connect,
         "_dispatcher:Dispatcher.read": disp_read, "_dispatcher:SSLDispatcher.read": disp_read,
         "_url:parse_url": lambda I, run, a, k, n: Tup((Sym("h"), C(80), Sym("r"), FALSE)),
@@ -152,6 +155,18 @@ def run_forever_paths(ctx, reconnect=0, prior_errored=False, scenario_filter=Non
         "threading.Thread": lambda I, run, a, k, n: new_obj(run, None, "pingthread"),
         "stopev.set": lambda *a: NONE, "pingthread.is_alive": lambda *a: FALSE, "pingthread.start": lambda *a: NONE,
     })
+    if close_in:
+        # a user callback that calls app.close()
+        def closing_cb(I, run, args, kwargs, node):
+            run.effect(close_in, args, kwargs, node=node)
+            I.call(run, I.getattr(run, args[0], "close", None), [], {}, node)
+            return NONE
+        st[close_in] = closing_cb
+    if interrupt_in:
+        def interrupting_cb(I, run, args, kwargs, node):
+            run.effect(interrupt_in, args, kwargs, node=node)
+            raise_exc(I, run, "builtins.KeyboardInterrupt", node, "ctrl-c")
+        st[interrupt_in] = interrupting_cb
     I = Interp(idx, Config(stubs=st, loop_unroll=2))
 
     def body(run):
@@ -211,6 +226,47 @@ def r3(ctx):
                f"on_close must fire exactly once and last, the socket must be gone", loc, {"path": path_text(o, 10)})
     if len(seen) < 6:
         raise AnalysisError(f"only {len(seen)} ending scenarios explored")
+    # KeyboardInterrupt raised inside a callback: still exactly one on_close, and nothing after it
+    for cb in ("on_message", "on_close", "on_open"):
+        I3, outs3 = run_forever_paths(ctx, reconnect=0, interrupt_in=cb)
+        n = 0
+        bad = None
+        for o in outs3:
+            if o.kind == "cutoff" or cb not in [e.name for e in o.effects]:
+                continue
+            n += 1
+            calls = [e.name for e in user_calls(o)]
+            ok = calls.count("on_close") == 1 and calls[-1] == "on_close" and _app_fields(o).get("sock") == NONE
+            if not ok:
+                bad = bad or (calls, o)
+        if n == 0:
+            raise AnalysisError(f"no run reaches {cb}")
+        ctx.ob(f"{RF}:KeyboardInterrupt-in-{cb}", bad is None, f"{n} runs: one on_close, last" if bad is None else
+               f"KeyboardInterrupt raised inside {cb}: callbacks {bad[0]}, result {bad[1].kind} {bad[1].exc_class or bad[1].value!r} -- on_close must fire exactly once and after every other callback",
+               loc, {"path": path_text(bad[1], 10)} if bad else None)
+    # the application's own close() called from a callback, at each point a callback can run
+    for cb in ("on_open", "on_message"):
+        I2, outs2 = run_forever_paths(ctx, reconnect=0, close_in=cb)
+        n = 0
+        bad = None
+        for o in outs2:
+            if o.kind == "cutoff" or cb not in [e.name for e in o.effects]:
+                continue
+            n += 1
+            calls = [e.name for e in user_calls(o)]
+            f = _app_fields(o)
+            errs = [e for e in o.effects if e.name == "on_error"]
+            k = calls.index(cb)
+            ok = o.kind == "return" and o.value == FALSE and not errs and calls.count("on_close") == 1 and calls[-1] == "on_close" and f.get("sock") == NONE
+            if not ok:
+                bad = bad or (calls, o, errs)
+        if n == 0:
+            raise AnalysisError(f"no run reaches {cb}")
+        ctx.ob(f"{RF}:close()-from-{cb}", bad is None, f"{n} runs: close() inside {cb} ends the run cleanly (on_close once and last, result False)" if bad is None else
+               f"close() called from {cb}: callbacks {bad[0]}, result {bad[1].kind} {bad[1].value!r}" +
+               (f", on_error({bad[2][0].args[1]!r} = {I2.exc_class_name(bad[1].run, bad[2][0].args[1])})" if bad[2] else "") +
+               " -- the application's own close() is not an error: run_forever must return False after exactly one on_close", loc,
+               {"path": path_text(bad[1], 10)} if bad else None)
 
 
 def _close_frame(run):
